@@ -502,7 +502,7 @@ def _canon_value(fl, e: ast.AST, at: int, depth: int = 3):
     return ("expr", unparse(e, 200))
 
 
-@rule("META-PAIR-1", props=["C12"], floor=6)
+@rule("META-PAIR-1", props=["C12"], floor=8)
 def meta_pair(ctx: Ctx) -> None:
     """where an operation is declared with a shape and with chunks that were normalised
     (normalize_chunks(c, shape=S')), S' is the declared shape itself: chunks normalised against
